@@ -313,7 +313,12 @@ class Interval(Duration, Generic[_T]):
         while op(start, end):
             yield start
 
-            start = getattr(self.start, method)(**{unit: i})
+            try:
+                start = getattr(self.start, method)(**{unit: i})
+            except (OverflowError, ValueError):
+                # The next value is not representable (beyond year 1 / 9999):
+                # it lies beyond the end of the interval.
+                break
 
             i += amount
 
